@@ -503,6 +503,12 @@ func runConfig(res *core.Result, pool *idPool, r *rand.Rand, full bool) {
 					_ = ep.SendRejected(V.ID.IP, S.ID.IP, proto, dport)
 					_, _, _ = snd.Inst.RouterV.PingPong.Send(V.ID.IP, false, 0)
 					ms.Drain(vmesh.FIFO, 100)
+					// ... and a fresh key setup with the victim (a completed hello says the router is reachable, not
+					// that it may now use a port it was refused)
+					snd.Inst.RouterV.HelloPing.VerifExpireHello(V.ID.IP)
+					V.Inst.RouterV.HelloPing.VerifExpireHello(snd.ID.IP)
+					_, _ = snd.Inst.RouterV.HelloPing.Send(V.ID.IP)
+					ms.Drain(vmesh.FIFO, 100)
 				}
 				drainTun()
 				if len(ms.Panics) > 0 {
@@ -706,6 +712,10 @@ func runConfig(res *core.Result, pool *idPool, r *rand.Rand, full bool) {
 					_ = ep.SendGeneric(V.ID.IP, "x")
 					_ = ep.SendAccessDenied(V.ID.IP, D.ID.IP, oproto, 80)
 					_ = ep.SendRejected(V.ID.IP, D.ID.IP, oproto, 80)
+					ms.Drain(vmesh.FIFO, 100)
+					snd.Inst.RouterV.HelloPing.VerifExpireHello(V.ID.IP)
+					V.Inst.RouterV.HelloPing.VerifExpireHello(snd.ID.IP)
+					_, _ = snd.Inst.RouterV.HelloPing.Send(V.ID.IP)
 					ms.Drain(vmesh.FIFO, 100)
 				}
 				drainTun()
